@@ -60,3 +60,192 @@ Example C06_nonvacuous :
   /\ committed (fst (with_each (idle 0) [[Dml (fun d => Some (d + 1))]; [Dml (fun d => Some (d + 10)); PyRaise]])) = 1.
 Proof. vm_compute. repeat split; reflexivity. Qed.
 Print Assumptions C06_nonvacuous.
+
+(* ------------------------------------------------------------------------------------------------ *)
+From Coq Require Import String.
+From Coq Require Import ZArith List Bool.
+Import ListNotations.
+Require Import WnV.Base.Sx WnV.Gen.Schema WnV.Gen.Constants WnV.Model.Spec WnV.Model.Val.
+Require Import WnV.Model.Rel WnV.Model.Add WnV.Proofs.AddProofs.
+Require Import WnV.Proofs.AddContent WnV.Proofs.AddRemove WnV.Proofs.AddRejects.
+Local Open Scope Z_scope.
+Local Open Scope string_scope.
+
+(* ---- which resources fail (model of wn._add, Model/Add.v; its result type carries no database on failure, so nothing of a failed add can be stored): a sense naming a synset that is not declared (validator code E204), a relation whose target is unknown (E401), two entries of one lexicon with the same id; and a fault in ANY lexicon of a resource fails the whole call (no partial result).  [Wf]/[Wfb] = rowids unique and NOT NULL/CHECK constraints hold, [UqDb] = the UNIQUE indexes of the schema hold (both preserved by add) *)
+Theorem C06_unknown_synset_rejected :
+  forall (nt : normtable) (L : val) (d : db) (e s : val),
+         Wf d ->
+         In e (_entries L) ->
+         In s (_local_senses (_senses e)) ->
+         synset_defined L (pcell (preq s "synset")) = false ->
+         synset_in_db d (pcell (preq s "synset")) = false ->
+         forall d' : db, add_one_lexicon nt L d <> Ok d'.
+Proof. exact (@unknown_synset_rejected). Qed.
+Print Assumptions C06_unknown_synset_rejected.
+
+Theorem C06_unknown_synset_rejected_nonext :
+  forall (nt : normtable) (L : val) (d : db) (e s : val),
+         fk_ok d = true ->
+         Wf d ->
+         vtruthy (vgetk L "extends") = false ->
+         In e (_entries L) ->
+         In s (_local_senses (_senses e)) ->
+         synset_defined L (pcell (preq s "synset")) = false ->
+         forall d' : db, add_one_lexicon nt L d <> Ok d'.
+Proof. exact (@unknown_synset_rejected_nonext). Qed.
+Print Assumptions C06_unknown_synset_rejected_nonext.
+
+Theorem C06_unknown_synset_relation_target_rejected :
+  forall (nt : normtable) (L : val) (d : db) (ss rel : val),
+         Wf d ->
+         In ss (_synsets L) ->
+         In rel (vlistk ss "relations") ->
+         synset_defined L (pcell (preq rel "target")) = false ->
+         synset_in_db d (pcell (preq rel "target")) = false ->
+         forall d' : db, add_one_lexicon nt L d <> Ok d'.
+Proof. exact (@unknown_synset_relation_target_rejected). Qed.
+Print Assumptions C06_unknown_synset_relation_target_rejected.
+
+Theorem C06_unknown_sense_relation_target_rejected :
+  forall L e s rel tg : val,
+         In e (_entries L) ->
+         In s (_senses e) ->
+         In rel (vlistk s "relations") ->
+         vreq rel "target" = Ok tg ->
+         target_known L tg = false ->
+         forall (lexid : Z) (m : lexidmap_t) (d d' : db),
+         _insert_sense_relations L lexid m d <> Ok d'.
+Proof. exact (@unknown_sense_relation_target_rejected). Qed.
+Print Assumptions C06_unknown_sense_relation_target_rejected.
+
+Theorem C06_unknown_sense_relation_target_rejected_add :
+  forall (nt : normtable) (L : val) (d : db) (e s rel tg : val),
+         In e (_entries L) ->
+         In s (_senses e) ->
+         In rel (vlistk s "relations") ->
+         vreq rel "target" = Ok tg ->
+         target_known L tg = false -> forall d' : db, add_one_lexicon nt L d <> Ok d'.
+Proof. exact (@unknown_sense_relation_target_rejected_add). Qed.
+Print Assumptions C06_unknown_sense_relation_target_rejected_add.
+
+Theorem C06_duplicate_entry_rejected :
+  forall (nt : normtable) (L : val) (d : db) (l1 : list val) (e1 : val)
+           (l2 : list val) (e2 : val) (l3 : list val) (x : str),
+         UqDb d ->
+         _local_entries (_entries L) = (l1 ++ e1 :: l2 ++ e2 :: l3)%list ->
+         vreq e1 "id" = Ok (VStr x) ->
+         vreq e2 "id" = Ok (VStr x) -> forall d' : db, add_one_lexicon nt L d <> Ok d'.
+Proof. exact (@duplicate_entry_rejected). Qed.
+Print Assumptions C06_duplicate_entry_rejected.
+
+Theorem C06_reject_single :
+  forall (d : db) (r : val) (nt : normtable) (L : val) (skipmap : skipmap_t),
+         vreq r "lexicons" = Ok (VList [L]) ->
+         _precheck [L] d = Ok skipmap ->
+         not_skipped skipmap L = true ->
+         (forall d' : db, add_one_lexicon nt L d <> Ok d') ->
+         forall d' : db, add_lexical_resource d r nt <> Ok d'.
+Proof. exact (@reject_single). Qed.
+Print Assumptions C06_reject_single.
+
+Theorem C06_reject_multi :
+  forall (d : db) (r : val) (nt : normtable) (pre : list val) (L : val)
+           (post : list val) (skipmap : skipmap_t) (d1 : db),
+         vreq r "lexicons" = Ok (VList (pre ++ L :: post)) ->
+         _precheck (pre ++ L :: post) d = Ok skipmap ->
+         not_skipped skipmap L = true ->
+         foldM (lex_step nt skipmap) pre d = Ok d1 ->
+         (forall d2 : db, add_one_lexicon nt L d1 <> Ok d2) ->
+         forall d' : db, add_lexical_resource d r nt <> Ok d'.
+Proof. exact (@reject_multi). Qed.
+Print Assumptions C06_reject_multi.
+
+Theorem C06_reject_multi_any_db :
+  forall (d : db) (r : val) (nt : normtable) (pre : list val) (L : val)
+           (post : list val) (skipmap : skipmap_t),
+         vreq r "lexicons" = Ok (VList (pre ++ L :: post)) ->
+         _precheck (pre ++ L :: post) d = Ok skipmap ->
+         not_skipped skipmap L = true ->
+         (forall d1 d2 : db, add_one_lexicon nt L d1 <> Ok d2) ->
+         forall d' : db, add_lexical_resource d r nt <> Ok d'.
+Proof. exact (@reject_multi_any_db). Qed.
+Print Assumptions C06_reject_multi_any_db.
+
+Theorem C06_add_unknown_synset_fails :
+  forall (d : db) (r : val) (nt : normtable) (L : val) (i v : str) (e s : val),
+         vreq r "lexicons" = Ok (VList [L]) ->
+         vreq L "id" = Ok (VStr i) ->
+         vreq L "version" = Ok (VStr v) ->
+         vtruthy (vgetk L "extends") = false ->
+         is_null (LEXICON_QUERY d (CText i) (CText v)) = true ->
+         fk_ok d = true ->
+         Wfb d = true ->
+         In e (_entries L) ->
+         In s (_local_senses (_senses e)) ->
+         synset_defined L (pcell (preq s "synset")) = false ->
+         forall d' : db, add_lexical_resource d r nt <> Ok d'.
+Proof. exact (@add_unknown_synset_fails). Qed.
+Print Assumptions C06_add_unknown_synset_fails.
+
+Theorem C06_add_duplicate_entry_fails :
+  forall (d : db) (r : val) (nt : normtable) (L : val) (i v : str)
+           (l1 : list val) (e1 : val) (l2 : list val) (e2 : val) (l3 : list val)
+           (x : str),
+         vreq r "lexicons" = Ok (VList [L]) ->
+         vreq L "id" = Ok (VStr i) ->
+         vreq L "version" = Ok (VStr v) ->
+         vtruthy (vgetk L "extends") = false ->
+         is_null (LEXICON_QUERY d (CText i) (CText v)) = true ->
+         UqDbb d = true ->
+         _local_entries (_entries L) = (l1 ++ e1 :: l2 ++ e2 :: l3)%list ->
+         vreq e1 "id" = Ok (VStr x) ->
+         vreq e2 "id" = Ok (VStr x) -> forall d' : db, add_lexical_resource d r nt <> Ok d'.
+Proof. exact (@add_duplicate_entry_fails). Qed.
+Print Assumptions C06_add_duplicate_entry_fails.
+
+(* ---- witnesses on concrete resources, with the error class the model returns (IntegrityError / wn.Error), and what is NOT rejected by the faithful model: duplicate synset or sense ids (the schema has no UNIQUE index on them; the validator reports E101), the same entry id in another lexicon *)
+Theorem C06_ex_unknown_synset :
+  verdict (lx "q1" [ent "e" [sen "s" "nosuch" []]] [syn "y" "" []]) = -5.
+Proof. exact (@ex_unknown_synset). Qed.
+Print Assumptions C06_ex_unknown_synset.
+
+Theorem C06_ex_unknown_sense_relation_target :
+  verdict
+           (lx "q2" [ent "e" [sen "s" "y" [("relations", VList [rel "nowhere" "also"])]]]
+              [syn "y" "" []]) = -1.
+Proof. exact (@ex_unknown_sense_relation_target). Qed.
+Print Assumptions C06_ex_unknown_sense_relation_target.
+
+Theorem C06_ex_unknown_synset_relation_target :
+  verdict
+           (lx "q3" [ent "e" [sen "s" "y" []]]
+              [syn "y" "" [("relations", VList [rel "nowhere" "hypernym"])]]) = -5.
+Proof. exact (@ex_unknown_synset_relation_target). Qed.
+Print Assumptions C06_ex_unknown_synset_relation_target.
+
+Theorem C06_ex_duplicate_entry :
+  verdict (lx "q4" [ent "e" [sen "s" "y" []]; ent "e" [sen "s2" "y" []]] [syn "y" "" []]) = -5.
+Proof. exact (@ex_duplicate_entry). Qed.
+Print Assumptions C06_ex_duplicate_entry.
+
+Theorem C06_ex_duplicate_synset_tolerated :
+  verdict (lx "q5" [ent "e" [sen "s" "y" []]] [syn "y" "" []; syn "y" "" []]) = 1 /\
+         table_uniques "synsets" = [] /\ table_uniques "senses" = [].
+Proof. exact (@ex_duplicate_synset_tolerated). Qed.
+Print Assumptions C06_ex_duplicate_synset_tolerated.
+
+Theorem C06_ex_duplicate_sense_tolerated :
+  verdict (lx "q6" [ent "e" [sen "s" "y" []; sen "s" "y" []]] [syn "y" "" []]) = 1.
+Proof. exact (@ex_duplicate_sense_tolerated). Qed.
+Print Assumptions C06_ex_duplicate_sense_tolerated.
+
+Theorem C06_ex_same_entry_id_other_lexicon :
+  verdict (lx "q9" [ent "e1" [sen "s" "y" []]] [syn "y" "" []]) = 1.
+Proof. exact (@ex_same_entry_id_other_lexicon). Qed.
+Print Assumptions C06_ex_same_entry_id_other_lexicon.
+
+Theorem C06_ex_db2_wf :
+  fk_ok ex_db2 = true /\ Wfb ex_db2 = true /\ UqDbb ex_db2 = true.
+Proof. exact (@ex_db2_wf). Qed.
+Print Assumptions C06_ex_db2_wf.
+
